@@ -12,19 +12,22 @@ LEVEL_TEXT = ("TLA+ module XmlDoc defines the documented subset twice, independe
               "domain, prefix laws of the recogniser, and a render-back law on EVERY string up to the bounded length over an 8-symbol alphabet, "
               "and emits [document, tree] cases.  Every such document is read by the real readXML (ASan+UBSan build, file on disk) and the "
               "returned tree is compared with the tree TLC computed.  For everything else - the same short-string set enumerated natively, "
-              "every truncation / deletion / substitution / insertion of sampled generated documents over a 17-symbol alphabet incl. NUL and "
-              "a high byte, seeded random token and byte strings, documents nested 2000 deep - only the way the call ends is constrained "
+              "every truncation / deletion / substitution / insertion (and truncation followed by one more symbol) of sampled generated "
+              "documents over a 17-symbol alphabet incl. NUL and a high byte, seeded random token and byte strings, documents nested 2000 deep - only the way the call ends is constrained "
               "(returned, or std::runtime_error; the admissible set is supplied by the specification); every other ending (sanitizer report, "
               "signal, other exception type, no progress for 120 s) is attributed to its input in a forked child, judged and classified by "
               "TLC (lexical context in which the input ends) and re-run once before it is reported.  Code -> spec: seeded random larger "
               "documents with per-occurrence random layout are read by the real code and TLC's reference parser decides whether the "
               "observed tree is the tree of the document")
 LEVEL_NOTE = ("exhaustive over: 4 core trees (two attributes, both quote characters inside values, bare child, text beside two children, "
-              "depth 3) x all 13 824 choice vectors (those that cannot change the document of a tree are fixed); all trees of depth <= 2, "
-              "fan-out <= 2, 2 names, 9 attribute lists, 3 contents with children from 8 (thorough 24) leaves x 6 style profiles; every "
+              "depth 3) x all 15 552 choice vectors (4 headers x 2x2 quote styles x attribute order x <a/> or <a></a> x 3 in-tag whitespace "
+              "forms x end-tag whitespace x 3 content whitespace forms x 5 comment forms x 3 text positions, minus the combinations of the two "
+              "separately classed constructs; choices that cannot change the document of a tree are fixed); all trees of depth <= 2, "
+              "fan-out <= 2, 2 names, 9 attribute lists, 3 contents with children from 8 (thorough 24) leaves x 7 style profiles; every "
               "string of length <= 6 (thorough 7) over { < > / = \" a space ! }.  Sampled only: mutations (seeded sample of the generated "
               "documents), random strings, random larger documents.  Not decided: totality over all byte strings (only the enumerated / "
-              "derived / sampled corpus), nesting deeper than 2000, files that cannot be opened or sized, locale-dependent isalpha, "
+              "derived / sampled corpus), nesting deeper than 2000 (the ASan build exhausts the 8 MB stack between 3500 and 4000 levels: the "
+              "statement assumes bounded depth), files that cannot be opened or sized, locale-dependent isalpha, "
               "entities / CDATA / DOCTYPE / names with '-' or ':' (outside the subset the reader documents; only their safe ending is "
               "checked).  The accept/reject decision outside the subset is deliberately not compared (the reader may be lenient).  "
               "Trusted: TLC, ASan/UBSan as the out-of-bounds detector (reads that stay inside the zero-terminated copy of the file plus "
@@ -213,7 +216,7 @@ def report_unsafe(cx, bad, tag):
     if not bad:
         return
     bad = sorted(bad, key=lambda b: (len(b["doc"]), b["doc"]))
-    cap = 4000
+    cap = 60000
     if len(bad) > cap:
         chk.note("%d inputs ended outside the admitted outcomes; the %d shortest are classified" % (len(bad), cap))
         bad = bad[:cap]
@@ -248,6 +251,7 @@ def check_bulk(cx, hs, results, tag):
     """hs: bulk histories (one step each); collects the inputs whose outcome the specification does not admit"""
     chk = cx.chk
     bad = []
+    skipped = {"not_run": 0, "not_listed": 0}
     for h, r in zip(hs, results):
         st = h[0]
         if "crash" in r or "timeout" in r:
@@ -279,16 +283,18 @@ def check_bulk(cx, hs, results, tag):
             raise tla.InfraError("driver enumerated %d strings, the specification %d: %s" % (o["count"], st["exp"]["count"], st["arg"]))
         notrun = o["outcomes"].get("not_run", 0)
         cx.calls += o["count"] - notrun
-        if notrun:
-            chk.note("%s: %d inputs not run (crash budget of the step exhausted)" % (st["a"], notrun))
+        skipped["not_run"] += notrun
+        skipped["not_listed"] += o.get("inputs_not_listed") or 0
         for k, v in o["outcomes"].items():
             chk.cov["outcomes"][k.split(":")[0]] = chk.cov["outcomes"].get(k.split(":")[0], 0) + v
-        if o.get("inputs_not_listed"):
-            chk.note("%s: %d further inputs with unadmitted outcomes not listed by the driver" % (st["a"], o["inputs_not_listed"]))
         for e in o["inputs"]:
             if e["outcome"] == "not_run":
                 continue
             bad.append({"doc": e["doc"], "outcome": e["outcome"], "src": st["a"]})
+    if skipped["not_run"] or skipped["not_listed"]:
+        chk.note("%d inputs not run (per-step budget of abnormal endings exhausted), %d further inputs with unadmitted outcomes counted "
+                 "but not listed by the driver" % (skipped["not_run"], skipped["not_listed"]))
+        chk.cov["inputs_not_run"] = chk.cov.get("inputs_not_run", 0) + skipped["not_run"]
     return bad
 
 
@@ -355,7 +361,10 @@ def rand_doc(rnd, depth):
             return out + "/>"
         return out + ">" + misc() + "".join(it + misc() for it in items) + "</" + name + (rnd.choice([" ", "\n", "\t "]) if rare == "endws" and rnd.random() < 0.3 else "") + ">"
 
-    hdr = rnd.choice(["", "", "<?xml version=\"1.0\"?>", "<?xml version='1.0' encoding=\"UTF-8\" standalone='yes' ?>\n", "<?xml?>"])
+    hdr = rnd.choice(["", "", "<?xml?>",
+                      "<?xml" + ws(True) + "version" + ws() + "=" + ws() + "\"1.0\"" + ws() + "?>",
+                      "<?xml" + ws(True) + "version" + ws() + "=" + ws() + "'1.0'" + ws(True) + "encoding" + ws() + "=" + ws() + "\"UTF-8\"" + ws(True)
+                      + "standalone='yes'" + ws() + "?>"])
     return hdr + misc() + node(depth) + misc()
 
 
@@ -430,7 +439,10 @@ def do_run(cx, quick, rnd):
     longest = sorted(docs, key=len)[-4:]
     for d in mdocs + [x for x in longest if x not in mdocs]:
         bulk.append([{"a": "Mutations", "arg": {"doc": d, "alphabet": MUT_ALPHABET, "quiet": cx.safe}, "exp": {"outcomes": cx.safe}}])
-    nrand, per = (60000, 5000) if quick else (1200000, 25000)
+    # every truncation of a few documents followed by one more symbol (e.g. a backslash right before the end of the file)
+    for d in longest + mdocs[:(12 if quick else 60)]:
+        bulk.append([{"a": "Batch", "arg": {"docs": [d[:k] + a for k in range(len(d)) for a in MUT_ALPHABET], "quiet": cx.safe}, "exp": {"outcomes": cx.safe}}])
+    nrand, per = (60000, 5000) if quick else (1200000, 5000)
     for k in range(nrand // per):
         bulk.append([{"a": "Random", "arg": {"seed": chk.seed * 1000 + k, "n": per, "maxtok": 3 + (k % 4) * 6, "tokens": RANDOM_TOKENS, "quiet": cx.safe},
                       "exp": {"outcomes": cx.safe}}])
@@ -441,7 +453,7 @@ def do_run(cx, quick, rnd):
         bulk.append([{"a": "Nest", "arg": {"depth": depth, "form": "open"}, "exp": {}}])
     chk.count_actions(bulk)
     t0 = time.time()
-    res = run_parallel(cx, bulk, "c16-bulk", 1, cx.meta(hang_s=HANG_S, max_crashes=400, max_inputs=400), jobs=8, env={"ASAN_OPTIONS": BULK_ASAN})
+    res = run_parallel(cx, bulk, "c16-bulk", 1, cx.meta(hang_s=HANG_S, max_crashes=600, max_inputs=600), jobs=8, env={"ASAN_OPTIONS": BULK_ASAN})
     before = cx.calls
     bad = check_bulk(cx, bulk, res, "c16-bulk")
     chk.log("%d further files (%d enumerated short strings, mutations of %d documents, %d random strings, nested documents) read in %.1fs: "
@@ -471,7 +483,7 @@ def do_run(cx, quick, rnd):
     chk.add_sample({"kind": "recorded-observation-input", "doc": jdocs[0][:300]}, maxn=4)
 
     chk.cov["evaluations"] = cx.calls
-    chk.require_actions(["Read", "Enumerate", "Mutations", "Random", "Nest"])
+    chk.require_actions(["Read", "Enumerate", "Mutations", "Batch", "Random", "Nest"])
     for cls in ("subset", "subset,ws-in-end-tag", "subset,comment-begins-with-gt"):
         if not chk.cov["documents_by_class"].get(cls):
             raise tla.InfraError("vacuity guard: no generated document of class %s" % cls)
